@@ -15,7 +15,24 @@ def run(ctx):
                      'induction that the recurrence implemented by Windower::next yields exactly floor((L-b)/h)+1 chunks for every '
                      'L, b, h; Kani proves next()\'s slice arithmetic for every usize (L, bin, hop) over a zero-sized frame type')
     run_unit(ctx, 'window', search_crate='signal')
-    run_kani(ctx, 'window', harness=['c20_windower_next_arith'], harness_timeout='5m')
+    # a window of n frames samples the phases i/(n-1): Window::new / Window::next live in unit osc, next to the Phase / Rate /
+    # ConstHz contracts they are verified against (those callee contracts are discharged in the same run)
+    ctx.notes.append('Window::new (phase 0, step * (n-1) == 1) and Window::next (every channel == window function at the CURRENT '
+                     'phase, then the phase advances by one step mod 1) verified by Verus (unit osc) over exact reals; '
+                     'lemma_window_phases: the i-th frame is W(i/(n-1) mod 1)')
+    ctx.add_assumption('Window::new: `len as f64` is read through a helper whose contract is exactness (precondition len < 2^53); '
+                       'NOTE: Kani 0.68 / CBMC 6.11 evaluates the f64 `%` operator to 0.0 for every operand (measured), so no Kani '
+                       'harness is used for anything that depends on a wrapped phase; Windowed::next is covered by the Kani '
+                       'chunk-path harnesses only for the window value of phase 0')
+    run_unit(ctx, 'osc', search_crate='signal', only_labels=['Window::new', 'Window::next', 'Phase::next_phase', 'Phase::next_phase_wrapped_to',
+                                                             'Rate::const_hz', 'rate', 'phase', 'ConstHz::step'],
+             search_map={'Window::new': ['Window::next'], 'Phase::next_phase': ['Window::next'], 'Phase::next_phase_wrapped_to': ['Window::next'],
+                         'Rate::const_hz': ['Window::next'], 'rate': ['Window::next'], 'phase': ['Window::next'], 'ConstHz::step': ['Window::next']})
+    note0 = ('BOUNDED (concrete shapes, symbolic contents): chunk data path for (L,b,h) in {(4,3,1),(5,5,2),(6,2,3),(3,4,1)}: chunk k holds '
+             'frames k*h..k*h+b-1, each multiplied ONCE by the window value (probe window function 1.5 + phase; under Kani the wrapped '
+             'phase is always 0, so the position-dependence of the window value is NOT exercised here), exactly count(L,b,h) chunks')
+    ctx.bounded.append(note0)
+    run_kani(ctx, 'window', harness=['c20_windower_next_arith', 'c20_chunk_path'], harness_timeout='5m')
     if ctx.tier == 'thorough':
         note = ('BOUNDED: windower run to the end for L in {2,3,4} f64 mono frames, every bin in 2..=L+1 and hop in 1..=L+1, '
                 'rectangle window: chunk count == closed form, first bin frames of chunk k are frames[k*hop + j] * window')
